@@ -1,6 +1,6 @@
 (* C04 - best-so-far never worsens; counters and monitors are faithful.  Statements only. *)
 From Coq Require Import List ZArith QArith Bool.
-From MV Require Import Common.Num Common.Order Core.Machine Core.Machine_Proofs Core.DE Core.DE_Proofs Core.NM Core.NM_Proofs.
+From MV Require Import Common.Num Common.Order Core.Machine Core.Machine_Proofs Core.DE Core.DE_Proofs Core.NM Core.NM_Proofs Core.Powell Core.Powell_Proofs.
 Import ListNotations.
 Open Scope Z_scope.
 
@@ -76,6 +76,22 @@ Proof.
   exact (proj2 (proj2 (nm_reported_best N inf Ht Hi cons0 Hid ops sc Hc HP Hs Hn))).
 Qed.
 Print Assumptions C04_nm_last_record_is_best.
+
+(* Powell: a generation's record reaches the step monitor one phase late and is completed by Finalize; nevertheless the LAST entry of
+   the solver's energy history is the reported best energy after every operation of a clean run (any cost, constraints, line searches) *)
+Theorem C04_powell_history_last_is_best :
+  forall (N : Num) (inf : T N) (ops : list (op N (pw_in N))) (sc : sys N * pw N),
+  Forall (clean_op N _ (pw_ok_in N) false) ops -> H_pw N inf (fst sc) (snd sc) ->
+  let r := run N inf _ _ (pw_algo N inf) sc ops in
+  energy_history N _ _ (pw_algo N inf) (fst r) (snd r) <> [] ->
+  last (energy_history N _ _ (pw_algo N inf) (fst r) (snd r)) inf = snd (pw_best N inf (snd r)).
+Proof.
+  intros N inf ops sc Hc H r. destruct (pw_history_ok N inf ops sc Hc H) as (_ & _ & Hh). exact Hh.
+Qed.
+Print Assumptions C04_powell_history_last_is_best.
+
+Example C04_powell_nonvacuous : forall (N : Num) (inf : T N) t ndim, H_pw N inf (init_sys N inf t) (pw_init N inf ndim).
+Proof. intros. apply pw_init_hist. reflexivity. Qed.
 
 Example C04_nonvacuous : forall (N : Num) (inf : T N) t, Inv_cnt N (init_sys N inf t) /\ Inv_emon N (init_sys N inf t).
 Proof. intros. pose proof (init_invs N inf t) as (_ & H1 & H2 & _). auto. Qed.
